@@ -384,3 +384,43 @@ func runIdl(o *out, rng *rand.Rand, cases []gcase, nrand int, stats ev) {
 	stats["accepted"] = nacc
 	stats["rejected"] = nrej
 }
+
+// runIdlReplay re-drives recorded histories (replay files): the steps are the recorded Req / Got events.
+func runIdlReplay(o *out, rng *rand.Rand, cases []gcase) {
+	num := func(e ev, k string) int {
+		f, _ := e[k].(float64)
+		return int(f)
+	}
+	for _, c := range cases {
+		s := newIdlSim(o, rng, c.Size, c.Tsize, c.Q)
+		s.guard(func() {
+			s.start()
+			for _, st := range c.Steps {
+				switch st["op"] {
+				case "Req":
+					s.request(num(st, "q"))
+				case "Got":
+					i, n := num(st, "i"), num(st, "len")
+					data := make([]byte, n)
+					cls, _ := st["cls"].(string)
+					lo := i * bs
+					good := cls == "good" && i >= 0 && lo+n <= len(s.truth)
+					for k := range data {
+						switch {
+						case good:
+							data[k] = s.truth[lo+k]
+						case lo >= 0 && lo+k < len(s.garbage):
+							data[k] = s.garbage[lo+k]
+						default:
+							data[k] = 0x42
+						}
+					}
+					if !good {
+						cls = "bad"
+					}
+					s.deliver(int64(i), data, cls, int64(num(st, "ts")), 0)
+				}
+			}
+		})
+	}
+}
